@@ -140,6 +140,9 @@ def run_property(modname: str, tier: str = "quick", write_baseline=False) -> int
         payload = {"property": prop, "obligation": o.name, "kind": o.kind, "path_signature": o.path_sig,
                    "solver_status": o.status, "backend": o.backend, "detail": o.detail, "witness": o.witness,
                    "replay": observation, "solver_model": o.model_text, "repo_root": REPO_ROOT}
+        if o.kind == "vacuity":
+            undecided.append(o)
+            continue
         if o.status == "failed" or confirmed:
             if kf is not None and (confirmed or o.status == "failed"):
                 known_hit.append((kf, o))
@@ -161,6 +164,13 @@ def run_property(modname: str, tier: str = "quick", write_baseline=False) -> int
             if kf is not None:
                 # a listed finding whose obligation the solver left open and whose replay did not reproduce
                 undecided.append(o)
+            elif o.name in baseline and "candidate counter-model" in o.detail:
+                # The obligation was discharged on the baseline tree; now every back end fails to prove it even with the
+                # extended budget AND the finitely instantiated VC has a counter-model (attached). Reported as a violation
+                # without a failing input (DESIGN.md section 4.2); plain `unknown` without a candidate stays undecided.
+                payload["note"] = "discharged on the baseline tree; undischarged now with extended budget; candidate counter-model attached"
+                json.dump(payload, open(rfile, "w"), indent=1, default=str)
+                violations.append((o, rfile, " no-failing-input-found"))
             else:
                 json.dump(payload, open(rfile, "w"), indent=1, default=str)
                 undecided.append(o)
